@@ -157,6 +157,31 @@ def _scan_model():
             for sub in ast.walk(n):
                 if isinstance(sub, ast.Attribute) and sub.attr == "scan":
                     locked = True
+    # every other use of the shared scanner in the package must hold the same lock
+    import glob
+
+    for path in glob.glob("/repo/pyxform/**/*.py", recursive=True):
+        try:
+            mod = ast.parse(open(path, encoding="utf-8").read())
+        except SyntaxError:
+            continue
+        parents = {}
+        for node_ in ast.walk(mod):
+            for ch_ in ast.iter_child_nodes(node_):
+                parents[ch_] = node_
+        for node_ in ast.walk(mod):
+            if isinstance(node_, ast.Call) and isinstance(node_.func, ast.Attribute) and node_.func.attr == "scan":
+                tgt = node_.func.value
+                tname = tgt.id if isinstance(tgt, ast.Name) else (tgt.attr if isinstance(tgt, ast.Attribute) else "")
+                if "LEXER" not in tname.upper():
+                    continue
+                cur, inside = node_, False
+                while cur in parents:
+                    cur = parents[cur]
+                    if isinstance(cur, ast.With) and any("LOCK" in ast.unparse(i.context_expr).upper() for i in cur.items):
+                        inside = True
+                if not inside:
+                    locked = False
     per_thread_lexer = "threading.local" in inspect.getsource(ex) and "_EXPRESSION_LEXER.scan" not in pe_src
     shared = not per_thread_lexer
     expanded = []
@@ -298,6 +323,12 @@ def _seed_form(variant: int, lab: str):
             "survey": [{"type": "select_one l1 or_other", "name": "q1", "label::L1": lab, "label::L2": "B"}],
             "choices": [{"list_name": "l1", "name": "a", "label::L1": "A", "label::L2": "A2"}],
         }
+    if variant == 3:  # several extra namespaces + entities: order of xmlns attributes on the root
+        return {
+            "survey": [{"type": "text", "name": "q1", "label": lab}],
+            "settings": [{"namespaces": 'ex="http://e/x" ab="http://e/y" cd="http://e/z"'}],
+            "entities": [{"dataset": "ds", "label": "a"}],
+        }
     # two unknown parameters (error message lists them), two translatable columns missing in one language
     return {"survey": [{"type": "text", "name": "q1", "label": lab, "label::L1": "B", "hint": "H", "image": "x.png", "parameters": "zz=1 aa=2"}]}
 
@@ -315,9 +346,10 @@ def c14_setorder(variant: int, l0: int) -> bool:
         setorder.ACTIVE = active
         try:
             s, w, _js = build_survey(_seed_form(variant, lab))
-            outs.append(("ok", tree(s.xml()), list(w)))
+            root = s.xml()
+            outs.append(("ok", tree(root), list(w), list(root.attributes.keys())))
         except PyXFormError as e:
-            outs.append(("error", str(e), None))
+            outs.append(("error", str(e), None, None))
         finally:
             setorder.ACTIVE = True
     return outs[0] == outs[1]
@@ -330,7 +362,7 @@ def _seed_public(args):
     return {"workbook": _seed_form(args["variant"] if "variant" in args else 0, S(args["l0"], 66))}
 
 
-for _v in (0, 1, 2):
+for _v in (0, 1, 2, 3):
     specialise(
         "C14",
         "a.hash-seed",
